@@ -85,22 +85,27 @@ def build_archive(names):
     """tar.gz in memory from the installed files, with hard-link, sym-link and METADATA members"""
     corpus = dict(tzif_ref.corpus())
     buf = io.BytesIO()
+    links_first = bool(names) and sum(map(ord, names[0])) % 2 == 0     # member order varies: a link may precede its target
+    def add_links(tf):
+        ti = tarfile.TarInfo('Alias/Sym')
+        ti.type = tarfile.SYMTYPE
+        ti.linkname = names[0]
+        tf.addfile(ti)
+        ti = tarfile.TarInfo('Alias/Hard')
+        ti.type = tarfile.LNKTYPE
+        ti.linkname = names[-1]
+        tf.addfile(ti)
     with tarfile.open(fileobj=buf, mode='w:gz') as tf:
+        if links_first:
+            add_links(tf)
         for n in names:
             with open(corpus[n], 'rb') as f:
                 data = f.read()
             ti = tarfile.TarInfo(n)
             ti.size = len(data)
             tf.addfile(ti, io.BytesIO(data))
-        if names:
-            ti = tarfile.TarInfo('Alias/Sym')
-            ti.type = tarfile.SYMTYPE
-            ti.linkname = names[0]
-            tf.addfile(ti)
-            ti = tarfile.TarInfo('Alias/Hard')
-            ti.type = tarfile.LNKTYPE
-            ti.linkname = names[-1]
-            tf.addfile(ti)
+        if names and not links_first:
+            add_links(tf)
         meta = b'{"tzversion": "verif", "metadata_version": 2.0}'
         ti = tarfile.TarInfo('METADATA')
         ti.size = len(meta)
@@ -115,7 +120,11 @@ def eval_loadpaths(names):
     names = list(names)
     corpus = dict(tzif_ref.corpus())
     viols = []
-    zi = zoneinfo.ZoneInfoFile(build_archive(names))
+    try:
+        zi = zoneinfo.ZoneInfoFile(build_archive(names))
+    except Exception as e:
+        return Res(viols=[{'kind': 'load-path-returned-none', 'zone': names[0] if names else None, 'path': 'archive',
+                           'error': 'ZoneInfoFile could not read a well-formed archive: ' + repr(e)[:120]}])
     n = 0
     for name in names:
         path = corpus[name]
